@@ -265,6 +265,25 @@ class TS:
     w: int = attr.ib(default=attr.Factory(lambda self: self.z + 1, takes_self=True))
     y: int = 9
 TS_LOADERS = {dt: Retort(debug_trail=dt).get_loader(TS) for dt in DT_MODES}
+# ... and the constructor parameter of such a field is named differently from the field id (private attribute, alias=)
+@attr.s(auto_attribs=True)
+class TSP:
+    a: int
+    _t: int = attr.ib(default=attr.Factory(lambda self: self.a + 100, takes_self=True))
+    print_: int = attr.ib(default=attr.Factory(lambda self: self.a + 200, takes_self=True), alias="print")
+    z: int = 7
+TSP_LOADERS = {dt: Retort(debug_trail=dt).get_loader(TSP) for dt in DT_MODES}
+def takes_self_names(pt, pp, pz, a, t, p, z):
+    for dt in DT_MODES:
+        data = {"a": a}
+        if pt: data["_t"] = t
+        if pp: data["print"] = p
+        if pz: data["z"] = z
+        o = outcome(TSP_LOADERS[dt], data)
+        if o[0] != "ok": return False
+        obj = o[2]
+        if (obj.a, obj._t, obj.print_, obj.z) != (a, t if pt else a + 100, p if pp else a + 200, z if pz else 7): return False
+    return True
 def takes_self(pt, pz, pw, py, a, t, z, w, y):
     for dt in DT_MODES:
         data = {"a": a}
@@ -458,6 +477,9 @@ def build(tier, seed):
           "return takes_self(pt, pz, pw, py, a, t, z, w, y)", timeout=tmo,
           family="end-to-end: optional parameters the constructor must fill itself (factory taking self) between other parameters",
           bounds="all 16 presence subsets of 4 optional parameters, symbolic int values, 3 debug modes")
+    me.ob("takes_self_param_names", "pt: bool, pp: bool, pz: bool, a: int, t: int, p: int, z: int", "return takes_self_names(pt, pp, pz, a, t, p, z)", timeout=tmo,
+          family="constructor-filled optional fields (attrs factory taking self) whose parameter name differs from the field id (private attribute, alias=)",
+          bounds="all presence patterns of 3 optional fields; symbolic ints; 3 debug modes")
     me.ob("param_name_vs_field_id", "pb: bool, pc: bool, a: int, b: int, c: int", "return priv(pb, pc, a, b, c)", timeout=tmo,
           family="end-to-end: constructor parameter named differently from the field id (attrs private attributes)",
           bounds="keyword-only private attribute; private attribute after a skipped field; presence bits, symbolic values, 3 debug modes")
